@@ -397,6 +397,10 @@ Lemma refused_reserved : refused_as_specified M_reserved. Proof. repeat split; v
 Lemma refused_pkname : refused_as_specified M_pkname. Proof. repeat split; vm_compute; reflexivity. Qed.
 Lemma refused_discname : refused_as_specified M_discname. Proof. repeat split; vm_compute; reflexivity. Qed.
 Lemma refused_assocname : refused_as_specified M_assocname. Proof. repeat split; vm_compute; reflexivity. Qed.
+(* C06-n (5e556b1): a subclass field x_id beside an inherited reference x *)
+Definition M_inhfkalias : cmodel :=
+  [kls "Tgt" [] [fld "v" SPlain (EB BInt)]; kls "Pa" [] [fld "x" SOpt (ECls "Tgt")]; kls "Ch" ["Pa"] [fld "x_id" SPlain (EB BInt)]].
+Lemma refused_inhfkalias : refused_as_specified M_inhfkalias. Proof. repeat split; vm_compute; reflexivity. Qed.
 
 (* regression example for the repaired C06-b: a model without any builtin-typed public field is now well-formed *)
 Lemma fixed_nobuiltin : wfM M_nobuiltin = true /\ inF M_nobuiltin = true /\ wf_imports (gen M_nobuiltin M_nobuiltin) = true
